@@ -305,9 +305,11 @@ class StandardTextLayout(TextLayout):
                 prev = move_prev_char(text, idx, prev)
                 if text[prev] == sp_o:
                     screen_columns = calc_width(text, idx, prev)
-                    line = [(0, prev)]
-                    if idx != prev:
-                        line = [(screen_columns, idx, prev), *line]
+                    # removed character hint; where only zero-width characters precede the space
+                    # it is the line start, so that the unwrap below cannot drop them
+                    line = [(0, idx)]
+                    if screen_columns > 0:
+                        line = [(screen_columns, idx, prev), (0, prev)]
                     segments.append(line)
                     idx = prev + 1
                     break
